@@ -2149,6 +2149,11 @@ fn c20(a: &ShardArgs) -> Result<(), String> {
         callbacks::read_handler_adapter(a, &mut r, rounds);
         if !cfg!(miri) && (a.shard == 0 || a.replay.is_some()) {
             callbacks::association_adapters(a, &mut r);
+            callbacks::application_adapter(a, &mut r);
+            callbacks::information_adapter(a, &mut r);
+        }
+        if !cfg!(miri) {
+            callbacks::control_adapter(a, &mut r, a.n(12) as usize);
         }
     }
     for p in dnp3::verif::util::take_panics() {
